@@ -111,6 +111,9 @@ def check_message_on(enc, dec, fmt, pgn, dst, payload, prev_seq, ctxlabel):
             data += d[2:]
         else:
             data += d[1:]
+    # bytes beyond the announced length can only sit in the last frame (padding up to 8 data bytes is the sender's choice)
+    if not out and len(data) > L and len(data) - L <= 7 and n_exp == len(fr) and data[:L] == payload:
+        data = data[:L]
     if not out and data != payload:
         out.append(("payload_bytes", {"length": L}, f"{ctxlabel}: frames carry {data.hex()[:40]}.. ({len(data)} bytes), payload {payload.hex()[:40]}.. ({L})"))
     if seq is not None and prev_seq is not None and seq == prev_seq:
@@ -283,6 +286,8 @@ def _task_c(args):
                         a = [(f.id, common.val_view(f.value)) for f in got.fields]
                         fr = frames_of(fmt, packets)
                         data = fr[0][1][2:] + b"".join(d[1:] for _, d, _ in fr[1:])
+                        if len(fr[0][1]) > 1:
+                            data = data[:fr[0][1][1]]          # the announced length; what follows in the last frame is padding
                         exp = ref.decode_basic_string(wire.plain_line(3, defn.pgn, 5, 255, data), already_combined=True)
                         b = [(f.id, common.val_view(f.value)) for f in exp.fields] if exp is not None else None
                         if a != b:
